@@ -31,6 +31,7 @@ type Oblig struct {
 }
 
 type loopInfo struct {
+	preState *State // the state just before the loop (for before(...) in invariants)
 	header   *ssa.BasicBlock
 	ord      int
 	blocks   map[*ssa.BasicBlock]bool
@@ -123,6 +124,8 @@ type FnCtx struct {
 	escaped map[string]bool
 	tainted map[string]bool
 	usedCallAssert map[string]bool
+	iters map[*ssa.Range]*iterInfo
+	specLoop *loopInfo // the loop whose contract is being evaluated (for iterated())
 	axiomDone map[string]bool
 }
 
@@ -393,7 +396,7 @@ func (fc *FnCtx) getHeap(st *State, key string, valSort smt.Sort) *smt.Term {
 		switch {
 		case vs == smt.Slice:
 			fc.S.Assert(smt.Forall([]*smt.Term{r}, smt.Implies(smt.Ge(r, smt.IntLit(0)), smt.Ge(smt.SlArr(sel), smt.IntLit(0))), []*smt.Term{sel}), "entry heap: existing objects hold no fresh references")
-		case vs == smt.Int && fc.refKeys[key]:
+		case vs == smt.Int && fc.refValuedKey(key):
 			fc.S.Assert(smt.Forall([]*smt.Term{r}, smt.Implies(smt.Ge(r, smt.IntLit(0)), smt.Ge(sel, smt.IntLit(0))), []*smt.Term{sel}), "entry heap: existing objects hold no fresh references")
 		}
 	}
